@@ -166,6 +166,16 @@ def _esc_he_oracle(args):
         return ('bad', 'C13_escaped_hier_element_converts predicts %r, the implementation gives %r' % (want, got), text)
     return ('ok', None, text)
 
+# ---- instances of C13_escaped_crossheading_converts, run on the implementation ----
+def _esc_ch_oracle(args):
+    uri, prefix, t = args
+    text = 'CROSSHEADING %s\n' % esc(t)
+    want = ['E', 'crossHeading', [['eId', (prefix + '__' if prefix else '') + 'crossHeading_1']], [['T', t]]]
+    got = impl.e2e_sx((uri, 'hier_element', prefix, text))
+    if got != want:
+        return ('bad', 'C13_escaped_crossheading_converts predicts %r, the implementation gives %r' % (want, got), text)
+    return ('ok', None, text)
+
 def esc_he_cases(ctx, n):
     from harness import absdoc
     kws = sorted(absdoc.HIER)
@@ -218,6 +228,11 @@ def search(ctx, budget):
         elif sum(c[1].count(k) for k in ('**', '//', '{{', '}}', '__', 'PART', 'ITEM', 'TABLE', '\\')) >= 2:
             ctx.nontrivial((c[0], c[1]))
     ej = esc_he_cases(ctx, ctx.n(150, 5000) * budget)
+    cj = [(j[0], j[1], j[5]) for j in ej]
+    for j, r in zip(cj, impl.pmap(_esc_ch_oracle, cj, chunk=16)):
+        ctx.evaluations += 1; ctx.count('escaped_crossheading_theorem_' + r[0])
+        if r[0] == 'bad':
+            ctx.failures.append(({'stage': 'esc-crossheading', 'args': list(j), 'text': r[2]}, r[1]))
     for j, r in zip(ej, impl.pmap(_esc_he_oracle, ej, chunk=16)):
         ctx.evaluations += 1; ctx.count('escaped_hier_element_theorem_' + r[0])
         if r[0] == 'bad':
@@ -244,6 +259,8 @@ def replay(obj):
         print('nothing to replay:', obj.get('broken_obligations')); return 1
     if case.get('stage') == 'escape':
         r = _oracle((case['position'], case['string'], case['root'])); print(r); return 1 if r[0] == 'bad' else 0
+    if case.get('stage') == 'esc-crossheading':
+        r = _esc_ch_oracle(tuple(case['args'])); print(r[:2]); return 1 if r[0] == 'bad' else 0
     if case.get('stage') == 'escaped-hier-element':
         r = _esc_he_oracle(tuple(case['args'])); print(r[:2]); return 1 if r[0] == 'bad' else 0
     if case.get('stage') == 'separator':
@@ -253,7 +270,7 @@ def replay(obj):
 LEVEL_TEXT = ('Proof on the grammar regenerated from akn.peg, for every non-empty string of scalar values without newline, every position and any '
               'sufficient fuel: inline+ on the character-by-character escaped string consumes exactly it and builds one (backslash, character) node '
               'per character, none of the ten inline markers (C13_escaped_inlines_parse), and the dict stage reads those nodes back as the single '
-              'text node holding the string (C13_escaped_inlines_literal); at line level, hier_block_element on the escaped string up to the line end succeeds through rule line - every keyword block fails on the leading backslash - and to_dict gives a p whose only child is that text node: a fully escaped line is one paragraph with exactly that text (C13_escaped_line_is_paragraph); in headings, after the " - " separator, rule hier_element_heading_heading reads the escaped string the same way and the heading\'s dict is the single text node holding it (C13_escaped_heading_parses, C13_escaped_heading_literal); in numbers, rule hier_element_heading_num reads the escaped string after the keyword as one escape node per character and the num of the dict is the string itself (C13_escaped_num_parses, C13_escaped_num_literal); and through the WHOLE pipeline model: in a hierarchical element (34 keywords, any num, any indentation, every known URI and prefix) a heading and a content line written with every character escaped convert to exactly those characters, for every string without tab / line break that does not end in a blank (C13_escaped_hier_element_converts; instances run on the implementation). The other positions (nested inlines, blocks) '
+              'text node holding the string (C13_escaped_inlines_literal); at line level, hier_block_element on the escaped string up to the line end succeeds through rule line - every keyword block fails on the leading backslash - and to_dict gives a p whose only child is that text node: a fully escaped line is one paragraph with exactly that text (C13_escaped_line_is_paragraph); in headings, after the " - " separator, rule hier_element_heading_heading reads the escaped string the same way and the heading\'s dict is the single text node holding it (C13_escaped_heading_parses, C13_escaped_heading_literal); in numbers, rule hier_element_heading_num reads the escaped string after the keyword as one escape node per character and the num of the dict is the string itself (C13_escaped_num_parses, C13_escaped_num_literal); and through the WHOLE pipeline model: in a hierarchical element (34 keywords, any num, any indentation, every known URI and prefix) a heading and a content line written with every character escaped convert to exactly those characters, for every string without tab / line break that does not end in a blank (C13_escaped_hier_element_converts; instances run on the implementation), and the same for the text of a crossheading (C13_escaped_crossheading_converts; instances run on the implementation). The other positions (nested inlines, blocks) '
               'are decided by the oracle: every keyword and marker x every text position exhaustively, and random strings over that alphabet. '
               'Partial: the run-of-inlines, whole-line, heading and num positions are theorems; nested inline and block positions are decided by the oracle.')
 LEVEL_NOTE = 'Trusted: Coq kernel (vm_compute on three rule bodies); hand models tied by sampling; translators; extraction+driver.'
